@@ -87,6 +87,13 @@ LAYOUTS = list(itertools.product(('=', ':', '=>'), ('\n', ';'), (False, True), (
                                  (False, True), ('ignore', 'ignored')))
 
 
+BARE_BEFORE = ['', '\n', '  ', '# c\n', '\n\n  # c\n\n']
+BARE_AFTER = ['', '\n', ';', ';\n', ' ;', ' ; ', '\n\n', ' # c', ' # c\n', '\n# c\n', ';;\n', '\n;\n', ';\n;', '\n  ', '\r\n']
+BARE_CHILDREN = [('inherits', (('Other', ('rule', None, ('str', 'A'))),)),
+                 ('wraps', (('start', ('rule', None, ('right', ('str', '['), ('left', ('super', 'start'), ('str', ']'))))),)),
+                 ('uses', (('Other', ('rule', None, ('seq', ('ref', 'start'), ('str', 'A')))),))]
+
+
 def layout_jobs(tier):
     for mods, inp in layout_specs():
         has_ign = bool(mods[0][1])
@@ -105,6 +112,24 @@ def layout_jobs(tier):
                 for opbreak in (None, 'before', 'after'):
                     yield {'mods': mods, 'inputs': 'abA:4', 'mode': 'simple', 'tag': 'bare-expression',
                            'layout': dict(bare=True, opbreak=opbreak, parens=(opbreak == 'after'))}
+                if n <= 1:
+                    # what may surround the expression: everything that may surround the statements of a grammar
+                    for before in BARE_BEFORE:
+                        for after in BARE_AFTER:
+                            yield {'mods': mods, 'inputs': 'abA:3', 'mode': 'simple', 'tag': 'bare-expression',
+                                   'layout': dict(bare=(before, after))}
+    # ... also for a named grammar that others extend: a child of `grammar P <expr>` behaves like a child of
+    # `grammar P start = <expr>`
+    for e in c01.gen(1, [('str', 'a'), ('str', 'ab'), ('re', 'b?')]):
+        if not c01.wellformed(e, aux):
+            continue
+        parent = ((('start', ('rule', None, e)),), (), 'start', None, (), False, 'named', None)
+        for cn, crules in BARE_CHILDREN:
+            child = (crules, (), 'start', None, (), False, 'named', None)
+            for pbare in (True, ('', ''), ('\n', ';\n')):
+                yield {'mods': [parent, child], 'named': True, 'inputs': 'abA[]:4', 'mode': 'simple', 'tag': 'bare-expression-parent',
+                       'entries': [('start', None), ('start', 0)] + ([('Other', None)] if cn != 'wraps' else []),
+                       'layouts': [dict(bare=pbare), {}]}
 
 
 def layout_descriptions(tier):
@@ -115,6 +140,8 @@ def layout_descriptions(tier):
         if tier == 'quick' and k % 5:
             continue
         specs = e1.mk_specs(j['mods'])
+        if 'layouts' in j:
+            continue            # (chains: their names are assigned at run time)
         yield render.spec(specs[0], None, **j['layout'])
 
 
@@ -221,7 +248,7 @@ def run(tier, seed):
     chk.rule = ('(a) every expression with <=1 operator over 11 leaves and <=2 operators over 5 leaves (thorough: 11), the n-ary forms, all '
                 'static repetition bounds and separated lists, rendered in EVERY combination of operator / constructor spellings per node; '
                 '(b) 60 multi-rule grammars x all 288 combinations of {= : =>} x {newline ;} x comments x blank lines x line break '
-                'before/after binary operators x redundant parentheses x ignore/ignored, and bare expression vs start = expr; '
+                'before/after binary operators x redundant parentheses x ignore/ignored, and bare expression vs start = expr (5 texts before x 15 texts after the expression: newlines, `;`, comments, blanks; also as a named grammar that a child extends: inherits / wraps super.start / uses start); '
                 '(c) a op1 b op2 c for every ordered pair of the 8 binary operators x every typed operand triple, and every postfix form and '
                 'the operator table against every binary operator, against the grouping stated in grammar.txt (the number of inputs on which the '
                 'opposite grouping would be observably different is reported); oracle: reference model of the AST; '
